@@ -195,7 +195,16 @@ fn check_once(t: &T, with_extras: bool) -> Option<(String, String)> {
                 let map: FxHashMap<ExprRef, BitVecValue> = pairs.iter().cloned().collect();
                 let r1 = catch(|| eval_expr(&ctx, pairs.as_slice(), e));
                 let r2 = catch(|| eval_expr(&ctx, &map, e));
-                for (nm, r) in [("pairs", r1), ("fxhashmap", r2)] {
+                // the order of a value list is the caller's business: reversed and rotated lists are the same store
+                let mut rev = pairs.clone();
+                rev.reverse();
+                let mut rot = pairs.clone();
+                if !rot.is_empty() {
+                    rot.rotate_left(1);
+                }
+                let r3 = catch(|| eval_expr(&ctx, rev.as_slice(), e));
+                let r4 = catch(|| eval_expr(&ctx, rot.as_slice(), e));
+                for (nm, r) in [("pairs", r1), ("fxhashmap", r2), ("pairs-reversed", r3), ("pairs-rotated", r4)] {
                     match r {
                         Ok(v) => {
                             if baa_to_val(&v) != expected {
@@ -275,6 +284,49 @@ fn check_short_circuit(t: &T) -> Option<(String, String)> {
                             format!("shortcircuit-panic|{}", p.file()),
                             format!("with inner node {} bound to a value, evaluating {} panicked: {} ({})", inner, t, p.msg, p.short_loc()),
                         ));
+                    }
+                }
+                // history: the same store is cleared and only the symbols are defined again (every symbol of the
+                // term, those below the inner node with boundary values): nothing of the earlier binding of the
+                // inner node may survive the clear
+                let all_syms = t.symbols();
+                let below: Vec<(String, Ty)> = all_syms.iter().filter(|s| !outside.contains(s)).cloned().collect();
+                for pick_last in [false, true] {
+                    let bvals: Vec<Val> = below
+                        .iter()
+                        .map(|(_, ty)| {
+                            let a = value_alphabet(*ty, ty.bits() <= 3, true);
+                            if pick_last { a.last().unwrap().clone() } else { a.first().unwrap().clone() }
+                        })
+                        .collect();
+                    st.clear();
+                    let mut env2 = make_env(&mut ctx, &outside, vals);
+                    for ((n, ty), v) in below.iter().zip(bvals.iter()) {
+                        let r = T::Sym(n.clone(), *ty).build(&mut ctx);
+                        env2.insert(r, v.clone());
+                    }
+                    for (r, v) in env2.iter() {
+                        match v {
+                            Val::B(b) => st.define_bv(*r, &bv_to_baa(b)),
+                            Val::A(a) => st.define_array(*r, arr_to_baa(a, false)),
+                        }
+                    }
+                    let expected2 = eval_ref(&ctx, e, &env2);
+                    match catch(|| eval_expr(&ctx, &st, e)) {
+                        Ok(v) => {
+                            if baa_to_val(&v) != expected2 {
+                                return Some((
+                                    "shortcircuit-survives-clear".into(),
+                                    format!("a store that held a value for inner node {} of {}, was cleared and got only the symbols defined again gives {} instead of {}", inner, t, baa_to_val(&v).show(), expected2.show()),
+                                ));
+                            }
+                        }
+                        Err(p) => {
+                            return Some((
+                                format!("shortcircuit-clear-panic|{}", p.file()),
+                                format!("a store that held a value for inner node {} of {}, was cleared and got the symbols defined again panics: {} ({})", inner, t, p.msg, p.short_loc()),
+                            ));
+                        }
                     }
                 }
             }
